@@ -117,16 +117,23 @@ func harnesses(r *fw.Run) []fw.HarnessSpec {
 			return
 		}
 		placement := c.ChooseFree(4) // 0 top level, 1 behind ^, 2 optional ref slot, 3 dictionary value
-		caching := c.ChooseFree(2) == 1
+		cmode := c.ChooseFree(3) // 0: plain tlb.Unmarshal, 1: a fresh caching decoder, 2: a caching decoder whose hasher has already hashed the enclosing cell (as Transaction decoding does before it reaches its messages)
+		caching := cmode > 0
 		want := w.ReprHash()
-		c.Case(append(want[:], byte(placement), byte(boolInt(caching))), true)
+		c.Case(append(want[:], byte(placement), byte(cmode)), true)
 		c.Sample(map[string]any{"message": w.Describe(), "placement": []string{"top", "^", "Maybe^", "HashmapE value"}[placement], "caching_decoder": caching, "level_mask": w.Mask})
 		c.Label("message %+v placement=%d caching=%v", m, placement, caching)
 		other, _ := te.Message{Info: te.Info{Kind: 2, Src: te.Addr{Kind: 2, Bits: bits.Pattern(1, 256)}}, Body: pl[1]}.Cell()
 		c.Try("panic:message-hash", func() {
 			dec := func(cellv *tb.Cell, o any) error {
 				if caching {
-					return tlb.NewDecoder().Unmarshal(cellv, o)
+					d := tlb.NewDecoder()
+					if cmode == 2 {
+						if _, err := d.Hasher().Hash(cellv); err != nil {
+							return err
+						}
+					}
+					return d.Unmarshal(cellv, o)
 				}
 				return tlb.Unmarshal(cellv, o)
 			}
@@ -222,6 +229,12 @@ func harnesses(r *fw.Run) []fw.HarnessSpec {
 			m.Info.Src = te.Addr{Kind: 1, Bits: bits.Pattern(seed, 256)}
 		}
 		m.Info.Import = c04.GramsAlphabet[c.Choose(len(c04.GramsAlphabet))]
+		// the same fee written with leading zero bytes (a longer, still conforming VarUInteger 16): what the fee is
+		// and how it is written are both ignored by the normalised hash
+		m.Info.ImportPad = c.Choose(4)
+		if l := (bigU(m.Info.Import).BitLen()+7)/8 + m.Info.ImportPad; l > 15 {
+			m.Info.ImportPad = 0
+		}
 		switch c.Choose(3) {
 		case 1:
 			m.Init = &te.StateInit{Code: pl[3], Data: pl[1]}
